@@ -59,6 +59,14 @@ Ball1(f) == {[fam |-> f, d |-> [Base[f] EXCEPT ![kv[1]] = kv[2]]] : kv \in Alts(
 Ball2(f) == UNION {{[fam |-> f, d |-> [c.d EXCEPT ![kv[1]] = kv[2]]] : kv \in {x \in Alts(f) : x[1] \notin Deviations(c)}}
                    : c \in Ball1(f)}
 Ball(f, r) == IF r = 0 THEN Ball0(f) ELSE IF r = 1 THEN Ball0(f) \cup Ball1(f) ELSE Ball0(f) \cup Ball1(f) \cup Ball2(f)
+\* the whole product of a family's dimensions (model checking only: 15360 echo + 1792 gen cases)
+Full(f) == IF f = "echo"
+           THEN {[fam |-> f, d |-> [method |-> m, query |-> q, vars |-> v, hdr |-> h, body |-> b, auth |-> u, accept |-> a]] :
+                    m \in Dom.echo.method, q \in Dom.echo.query, v \in Dom.echo.vars, h \in Dom.echo.hdr, b \in Dom.echo.body,
+                    u \in Dom.echo.auth, a \in Dom.echo.accept}
+           ELSE {[fam |-> f, d |-> [status |-> st, hdr |-> h, body |-> b, fault |-> fl, accept |-> a]] :
+                    st \in Dom.gen.status, h \in Dom.gen.hdr, b \in Dom.gen.body, fl \in Dom.gen.fault, a \in Dom.gen.accept}
+Space(f, r) == IF r >= 3 THEN Full(f) ELSE Ball(f, r)
 
 \* "status=404,body=none": the deviations of a case in the fixed order of its dimensions ("base" when there is none)
 RECURSIVE DevStr(_, _, _)
@@ -206,8 +214,8 @@ ModelFields(fam) == {"status"} \cup {p[1] : p \in HdrMap} \cup (IF fam = "gen" T
 
 \* Abstract identity of a failing field f of case c answered over transport t:
 \*   the single edges that, alone, make the model's child differ from the model's in-process answer in that field;
-\*   "edges-combined" when only child.go as read (all edges) differs there; otherwise nothing known explains it and
-\*   the identity is the case itself.
+\*   "edges-combined" when only child.go as read (all edges) differs there; otherwise "unexplained" (the contract then
+\*   names the case).
 RECURSIVE EdgeStr(_, _, _)
 EdgeStr(es, i, acc) == IF i > Len(EdgeSeq) THEN acc
                        ELSE EdgeStr(es, i + 1, IF EdgeSeq[i] \in es THEN (IF acc = "" THEN "" ELSE acc \o "+") \o EdgeSeq[i] ELSE acc)
@@ -216,5 +224,5 @@ Cause(c, f, oi, eo, oa) ==
         ex == {e \in Edges : FieldTok(eo[e], c.fam, f) # ti}
     IN IF ex # {} THEN EdgeStr(ex, 1, "")
        ELSE IF FieldTok(oa, c.fam, f) # ti THEN "edges-combined"
-       ELSE "unexplained/" \o DevStr(c, 1, "")
+       ELSE "unexplained"
 =============================================================================
